@@ -6,17 +6,7 @@
 #include "st_format.h"
 #include "st_string.h"
 
-extern "C" {
-void vp_sink_append(const char *data, size_t size);
-void vp_sink_append_char(char ch, size_t count);
-void vp_sink_spec(const ST::format_spec *spec);
-}
-
-struct vp_log_writer final : public ST::format_writer {
-    explicit vp_log_writer(const char *f) : ST::format_writer(f) {}
-    ST::format_writer &append(const char *data, size_t size) override { vp_sink_append(data, size); return *this; }
-    ST::format_writer &append_char(char ch, size_t count = 1) override { vp_sink_append_char(ch, count); return *this; }
-};
+#include "log_writer.h"
 
 // ---- C10: parser driven directly (every field is parsed, the spec is logged), and the real apply_format for small arities
 VP_FN(void, vp_fmt_parse_all, (const char *fmt)) {
